@@ -22,7 +22,8 @@ func init() {
 			"R9 the pointer result of a call whose error is tested is never consumed on the failure side — not used in the blocks only the failure edge reaches, and not carried on through a phi edge leaving them unless every later consumer sits behind a nil test of it (a nil *ast.File surviving a failed Replace crashes the printer); R10 slice expressions whose two bounds are both computed have low <= high established by a counting loop that starts at low, by a dominating comparison, or are listed as audited by construction. " +
 			"NOT decided: general nil-dereference and index-out-of-range safety, recursion depth, memory use, and the internals of go/scanner, go/parser, go/printer, reflect." +
 			" R12 compiled Matcher/Replacer fields never receive nil; R13 emptied comment groups are dropped from File.Comments (F14); R5 also: a function literal of Run that assigns its named error result builds on the current value." +
-			" R14 a comparison handed to diff.Difference that itself diffs lists is made once per pair (F16).",
+			" R14 a comparison handed to diff.Difference that itself diffs lists is made once per pair (F16)." +
+			" R15 no cycle in the call graph of package main, the library API, the section splitter and internal/text. R16 in augmenter.Apply a '...' is put into a statement or expression slot only behind cursor.Index() >= 0 (or, for an expression, a for header). R1 also accepts reader-governed loops, chain walks over links set once at creation, and range-over-int.",
 		Trusted:     append([]string{"go/scanner.Scanner.Scan keeps returning token.EOF once the input is exhausted", "bufio.Scanner.Scan terminates"}, commonTrusted...),
 		Assumptions: commonAssumptions,
 	})
